@@ -33,6 +33,18 @@ pub fn ntt_primes(r: &mut Rng, n: usize, bits: &[usize]) -> Vec<u64> {
     out
 }
 
+/// NTT-friendly primes taken from the BOTTOM of each bit range (just above 2^(b-1)): the bit count of their product is smaller than the
+/// sum of their bit counts (k primes of b bits give about k*b - k + 1 bits), which separates "bits of Q" from "sum of bits"
+pub fn ntt_primes_low(n: usize, bits: &[usize]) -> Vec<u64> {
+    let mut out: Vec<u64> = vec![];
+    for &b in bits {
+        if b < 4 || b - 1 <= (2 * n).trailing_zeros() as usize { continue; }
+        let (mut c, step, mut tries) = ((1u64 << (b - 1)) + 1, 2 * n as u64, 0);
+        while tries < 20000 { if !out.contains(&c) && Modulus::new(c).is_prime() { out.push(c); break; } c += step; tries += 1; }
+    }
+    out
+}
+
 fn boundary_values(r: &mut Rng, qs: &[u64]) -> Vec<Big> {
     let q = Big::product(qs);
     let one = Big::from_u64(1);
